@@ -106,7 +106,110 @@ def firstWith (ls : List String) (p : String) : String :=
   | some l => l
   | none => ""
 
+
+/-! ### live cases: the real runtime on the machine the check runs on -/
+
+def bitsS (l : List Nat) : String := joinDots l
+
+/-- pool events of the harness' `rp_callback`, then `configure_pools` -/
+def poolEvents (spec : String) (exposed : List Nat) : List Pool.Ev :=
+  if spec == "-" then [.setup] else
+  let pools := (spec.splitOn "/").map dots
+  let rec go : List (List Nat) → Nat → List Pool.Ev
+    | [], _ => [.setup]
+    | ords :: rest, j =>
+      (Pool.Ev.create :: ords.filterMap (fun o => (exposed[o]?).map (fun p => Pool.Ev.add p j))) ++ go rest (j + 1)
+  go pools 1
+
+def liveMonitors (bind : String) (use : Bool) (pm : List Nat) (req : Option Nat) (ctx : String)
+    (ls : List String) : List String :=
+  let hd := firstWith ls "live "
+  if hd.startsWith "live error" then [] else
+  if !hd.startsWith "live ok" then [s!"live: no result ({ctx})"] else
+  let kv := kvOf hd
+  let os0 := look kv "os0"
+  let ws := (ls.filter (fun l => l.startsWith "w ")).map (fun l =>
+    let k := kvOf l
+    (((l.splitOn " ").getD 1 "").toNat?.getD 0, (look k "pool").toNat?.getD 0, (look k "pu").toNat?.getD 0,
+      dots (look k "mask"), look k "os"))
+  let total := (look kv "threads").toNat?.getD 0
+  let c1 := if ws.length != total then [s!"live: {ws.length} workers listed for {total} threads ({ctx})"] else []
+  let c2 := match req with
+    | some n => if total != n then [s!"live: {total} workers started for {n} requested threads ({ctx})"] else []
+    | none => []
+  let c3 := ws.foldl (fun acc (g, _, p, m, os) =>
+    if bind == "none" then
+      (if m != [] then [s!"live: bind=none but worker {g} has mask {bitsS m}"] else []) ++
+      (if os != os0 then [s!"live: bind=none but worker {g} runs with affinity {os} (process: {os0})"] else []) ++ acc
+    else
+      (if m != [p] then [s!"live: worker {g} reports pu {p} but its mask is {bitsS m} ({ctx})"] else []) ++
+      (if os != toString p then [s!"live: worker {g} reports pu {p} but its OS thread is bound to {os} ({ctx})"] else []) ++
+      (if use && !pm.contains p then [s!"live: worker {g} bound to pu {p} outside the process mask ({ctx})"] else []) ++ acc) []
+  let c4 := ws.foldl (fun acc (g, _, p, _, _) =>
+    match ws.find? (fun (g', _, p', _, _) => g' < g && p' == p && bind != "none") with
+    | some (g', _, _, _, _) => s!"live: workers {g'} and {g} share pu {p} ({ctx})" :: acc
+    | none => acc) []
+  let c5 := ws.foldl (fun acc (g, _, _, _, _) =>
+    if (ws.filter (fun (g', _, _, _, _) => g' == g)).length != 1 then s!"live: worker {g} listed in more than one pool" :: acc else acc) []
+  c1 ++ c2 ++ c3.reverse ++ c4.reverse ++ c5.reverse
+
+def runLive (c : Case) : String :=
+  let tl := firstWith c.lines "topo "
+  let tkv := kvOf tl
+  let pusL := dots (look tkv "pus")
+  let t : Topo := { nc := pusL.length, pus := fun i => pusL.getD i 1, socks := dots (look tkv "socks") }
+  let implPm := dots (look tkv "pm")
+  let bind := c.get "bind"
+  let use := c.getNat "use" != 0
+  let pmL := if c.get "mask" == "all" then implPm else dots (c.get "mask")
+  let cfg0 : Cfg := { t := t, pm := fun q => pmL.contains q, usePm := use, used := 0, maxCores := 0, n := 0 }
+  let nAll := if use then countMask cfg0 else numPus t
+  let nCores := if use then ((List.range t.nc).filter (fun cc => (List.range (t.pus cc)).any (fun p => cfg0.pm (base t cc + p)))).length else t.nc
+  let thr := c.get "threads"
+  let n := if thr == "all" then nAll else if thr == "cores" then nCores else thr.toNat?.getD 0
+  let maxc := if c.getNat "cores" == 0 then n else c.getNat "cores"
+  let cfg : Cfg := { cfg0 with n := n, maxCores := maxc }
+  let ctx := s!"bind {bind}, threads {thr}, " ++ (if use then "process mask used" else if maxc < n then "process mask ignored, cores below thread count" else "process mask ignored")
+  let mon := liveMonitors bind use pmL (if maxc < n && !use then some n else some n) ctx c.lines
+  let monS := if mon.isEmpty then "monitors ok" else "monitors FAIL: " ++ " | ".intercalate mon
+  let hd := firstWith c.lines "live "
+  let os0 := look (kvOf hd) "os0"
+  if c.status != "ok" then s!"case {c.id} reject 0 [end {c.status}] ; monitors FAIL: live: runtime start ended with '{c.status}' ({ctx})" else
+  let b := affInit (if bind == "none" then none else modeOf bind) cfg
+  let npus := numPus t
+  let expect : List String :=
+    match b with
+    | .error e => ["live error " ++ errName e]
+    | .diverge => ["live diverge"]
+    | .bound aff _ =>
+      let exposed := (List.range npus).filter (fun q => (List.range n).any (fun i => (aff i).contains q))
+      match runLog Pool.step (Pool.init exposed n) (poolEvents (c.get "pools") exposed) with
+      | none => ["live error"]
+      | some s =>
+        let ws := ((List.range s.npools).map (fun i => (s.pool i).map (fun p => (i, p)))).flatten
+        s!"live ok threads={ws.length} pools={s.npools} os0={os0}" ::
+          (List.range ws.length).map (fun g => match ws[g]? with
+            | some (i, p) => s!"w {g} pool={i} pu={p} mask={p} os={p}"
+            | none => "")
+    | .unbound pn =>
+      let exposed := (List.range npus).filter (fun q => (List.range n).any (fun i => pn i == q))
+      match runLog Pool.step (Pool.init exposed n) (poolEvents (c.get "pools") exposed) with
+      | none => ["live error"]
+      | some s =>
+        let ws := ((List.range s.npools).map (fun i => (s.pool i).map (fun p => (i, p)))).flatten
+        s!"live ok threads={ws.length} pools={s.npools} os0={os0}" ::
+          (List.range ws.length).map (fun g => match ws[g]? with
+            | some (i, p) => s!"w {g} pool={i} pu={p} mask= os={os0}"
+            | none => "")
+  let impl := c.lines.filter (fun l => l.startsWith "live " || l.startsWith "w ")
+  let same := if expect == ["live error"] then hd.startsWith "live error" else impl == expect
+  if same then s!"case {c.id} accept {impl.length} ; final ok ; {monS}"
+  else
+    let firstDiff := ((impl.zip expect).find? (fun (a, b) => a != b)).getD (toString impl.length ++ " lines", toString expect.length ++ " lines")
+    s!"case {c.id} reject 0 [live: model '{firstDiff.2}' impl '{firstDiff.1}'] ; {monS}"
+
 def runCase (c : Case) : String :=
+  if c.get "kind" == "live" then runLive c else
   let (t, np) := parseTopo (c.get "topo")
   let mode := c.get "mode"
   let n := c.getNat "n"
